@@ -88,11 +88,12 @@ def driver_shape(ctx, d, name):
     cbres = ('hcall', cbname, ce.get('obj')) + tuple(ce['args']) if ce['kind'] == 'hcall' else \
         ('ucall', ce['id'], ce['functor'])
     want_brk = (T.lnot(('truth', cbres)),)
-    brks = [x for x in ls.exits if x[0] == 'brk']
-    others = [x for x in ls.exits if x[0] not in ('brk', 'fall', 'cont')]
+    # leaving by `break` or by returning the checkpoint from inside the loop are the same exit
+    brks = [x for x in ls.exits if x[0] == 'brk' or (x[0] == 'ret' and x[2] == cb_arg)]
+    others = [x for x in ls.exits if x[0] not in ('brk', 'fall', 'cont') and x not in brks]
     falls = [x for x in ls.exits if x[0] in ('fall', 'cont')]
-    ok = len(brks) == 1 and tuple(brks[0][1]) == want_brk and not others and \
-        all(tuple(x[1]) == (('truth', cbres),) for x in falls)
+    ok = len(brks) == 1 and norm_pc(brks[0][1]) == norm_pc(want_brk) and not others and \
+        all(norm_pc(x[1]) == norm_pc((('truth', cbres),)) for x in falls)
     if ok:
         ctx.holds('R1.stop_iff_false', lw, 'the loop is left early iff the callback returned false')
     else:
@@ -103,7 +104,9 @@ def driver_shape(ctx, d, name):
     if u is None or u['next'] != cb_arg:
         ctx.violation('R1.returned', lw, 'the checkpoint is modified after the callback saw it',
                       {'next': T.pretty(u['next'])[:300] if u else None})
-    elif s.ret != u['final']:
+    elif s.ret != u['final'] and not (isinstance(s.ret, tuple) and s.ret[0] == 'ite' and
+                                      {s.ret[2], s.ret[3]} == {u['final'], cb_arg} and
+                                      any(x[0] == 'ret' for x in brks)):
         ctx.violation('R1.returned', where, 'the driver does not return the checkpoint it maintained',
                       {'returned': T.pretty(s.ret)[:300]})
     else:
@@ -269,12 +272,16 @@ def check(ctx):
             where = fsite(f)
             inner = [e for e, l in flat_effects(s.effects) if e['kind'] == 'hcall'
                      and e['name'] == 'hep::callback::operator()']
-            if len(inner) != 1 or inner[0]['pc'] != () or inner[0]['args'] != [sym(f.params[-1].name)]:
+            once = bool(inner) and all(e['args'] == [sym(f.params[-1].name)] for e in inner) and \
+                (exactly_one_path([e['pc'] for e in inner]) is True)
+            if not once:
                 ctx.violation('R4.mpi_same_decision', where, 'mpi_callback does not call the inner '
-                              'callback exactly once, unconditionally, on the checkpoint')
+                              'callback exactly once on every path, on the checkpoint',
+                              {'calls_under': [T.pretty(T.conj(e['pc']))[:120] for e in inner]})
                 return
             r = s.ret
-            if isinstance(r, tuple) and r[0] == 'hcall' and r[1] == 'hep::callback::operator()':
+            if all(isinstance(x, tuple) and x and x[0] == 'hcall' and x[1] == 'hep::callback::operator()'
+                   for x in ite_leaves(r)):
                 ctx.holds('R4.mpi_same_decision', where, 'every rank returns the decision of the '
                           'inner callback on the (reduced) checkpoint')
             else:
